@@ -60,6 +60,10 @@ type (
 		// Note: this is fixed to 2^27 but have this a field for testability.
 		functionMaxTypes uint32
 
+		// starting holds the instances whose start function is running: they are not registered yet, but
+		// closing the store marks them closed, which is what stops a start function that does not return.
+		starting map[*ModuleInstance]struct{} // guarded by mux
+
 		// mux is used to guard the fields from concurrent access.
 		mux sync.RWMutex
 	}
@@ -466,7 +470,9 @@ func (s *Store) instantiate(
 		mayBeReferenced = true // it may store references to its functions anywhere.
 		funcIdx := *module.StartSection
 		ce := m.Engine.NewFunction(funcIdx)
+		s.setStarting(m, true)
 		_, err = ce.Call(ctx)
+		s.setStarting(m, false)
 		if exitErr, ok := err.(*sys.ExitError); ok { // Don't wrap an exit error!
 			return nil, exitErr
 		} else if err != nil {
@@ -474,6 +480,20 @@ func (s *Store) instantiate(
 		}
 	}
 	return
+}
+
+// setStarting records that the start function of m is (no longer) running.
+func (s *Store) setStarting(m *ModuleInstance, running bool) {
+	s.mux.Lock()
+	defer s.mux.Unlock()
+	if running {
+		if s.starting == nil {
+			s.starting = map[*ModuleInstance]struct{}{}
+		}
+		s.starting[m] = struct{}{}
+	} else {
+		delete(s.starting, m)
+	}
 }
 
 func (m *ModuleInstance) resolveImports(ctx context.Context, module *Module) (err error) {
@@ -745,6 +765,11 @@ func (s *Store) GetFunctionTypeID(t *FunctionType) (FunctionTypeID, error) {
 func (s *Store) CloseWithExitCode(ctx context.Context, exitCode uint32) error {
 	s.mux.Lock()
 	defer s.mux.Unlock()
+	// An instance whose start function is running is only marked closed: its own call notices that at
+	// the next exit-code check (close-on-context-done), fails the instantiation and releases it.
+	for m := range s.starting {
+		m.setExitCode(exitCode, exitCodeFlagResourceNotClosed)
+	}
 	// Close modules in reverse initialization order.
 	var errs []error
 	for m := s.moduleList; m != nil; m = m.next {
